@@ -113,7 +113,8 @@ def alloc_args(heap: Heap, args: Dict[str, V]) -> List[Any]:
 def verify_function(pkg: Package, contract: Contract,
                     summaries: Dict[str, Contract],
                     schema, max_paths: int = 3000,
-                    inline_only: Optional[set] = None) -> FunctionReport:
+                    inline_only: Optional[set] = None,
+                    only_scenarios: Optional[set] = None) -> FunctionReport:
     fi = pkg.func(contract.key)
     rep = FunctionReport(contract.key, fi.span(), fi.source_hash())
     t0 = time.time()
@@ -127,6 +128,8 @@ def verify_function(pkg: Package, contract: Contract,
         o.detail = f"Unsupported: decorator(s) {odd or '?'} are not modelled"
         return rep
     for sc in contract.scenarios():
+        if only_scenarios is not None and sc.name not in only_scenarios:
+            continue
         try:
             _verify_scenario(pkg, fi, contract, sc, summaries, schema, rep,
                              max_paths, inline_only or set())
